@@ -60,10 +60,77 @@ def _randn(g: Any, shape: List[int], dtype: str) -> Any:
     return x.to(tdtype(dtype))
 
 
+# the documented positional order of the public functional API (pinned tree): the reference for positional calls
+SIGNATURES = {
+    "gelu": ["input", "mult", "constraint", "approximate"],
+    "silu": ["input", "mult", "constraint", "inplace"],
+    "silu_glu": ["input", "gate", "mult"],
+    "softmax": ["input", "dim", "dtype", "constraint", "mult"],
+    "dropout": ["input", "p", "training", "inplace"],
+    "matmul": ["left", "right", "constraint"],
+    "linear": ["input", "weight", "bias", "constraint", "scale_power"],
+    "linear_readout": ["input", "weight", "bias", "constraint"],
+    "conv1d": ["input", "weight", "bias", "stride", "padding", "dilation", "groups", "constraint", "scale_power"],
+    "layer_norm": ["input", "normalized_shape", "weight", "bias", "eps"],
+    "rms_norm": ["input", "normalized_shape", "weight", "eps"],
+    "add": ["input", "other", "constraint", "alpha", "out"],
+    "residual_split": ["input", "tau"],
+    "residual_add": ["residual", "skip", "tau"],
+    "residual_apply": ["fn", "input", "tau"],
+    "embedding": ["input", "weight", "padding_idx", "max_norm", "norm_type", "scale_grad_by_freq", "sparse"],
+    "scaled_dot_product_attention": ["query", "key", "value", "attn_mask", "dropout_p", "is_causal", "mult"],
+    "cross_entropy": ["input", "target", "weight", "size_average", "ignore_index", "reduce", "reduction", "label_smoothing", "mult"],
+    "mse_loss": ["input", "target", "size_average", "reduce", "reduction"],
+}
+ARGFORM: List[Any] = [None]  # None | "positional" | "keyword" | "numforms" (set by probe_env)
+
+
+class _FormProxy:
+    """unit_scaling.functional seen through an equivalent but different CALL FORM: every argument passed
+    positionally, every argument passed by keyword, or integral floats given as ints (PEP 484: an int is acceptable where a float is declared)
+    and lists of ints as tuples.  The callee must not be able to tell the difference."""
+
+    def __init__(self, mod: Any, form: str) -> None:
+        self._mod, self._form = mod, form
+
+    def __getattr__(self, name: str) -> Any:
+        import inspect
+
+        fn = getattr(self._mod, name)
+        form = self._form
+        if not callable(fn):
+            return fn
+
+        def conv(v: Any) -> Any:
+            if isinstance(v, bool) or v is None:
+                return v
+            if isinstance(v, float) and v == int(v) and abs(v) < 2**31:
+                return int(v)
+            if isinstance(v, list) and all(isinstance(e, int) for e in v):
+                return tuple(v)
+            return v  # (a tuple is NOT turned into a list: `normalized_shape: Tuple[int, ...]` documents a tuple)
+
+        def call(*a: Any, **k: Any) -> Any:
+            sig = inspect.signature(fn)
+            ba = sig.bind(*a, **k)
+            if form == "numforms":
+                return fn(*[conv(v) for v in a], **{kk: conv(v) for kk, v in k.items()})
+            names = SIGNATURES.get(name) or list(sig.parameters)
+            if form == "keyword":
+                return fn(**dict(ba.arguments))
+            # positional: everything up to the last explicitly given parameter, defaults filled in
+            given = [n for n in names if n in ba.arguments]
+            last = max(names.index(n) for n in given)
+            ba.apply_defaults()
+            return fn(*[ba.arguments[n] for n in names[: last + 1]])
+
+        return call
+
+
 def _U() -> Any:
     import unit_scaling.functional as U
 
-    return U
+    return _FormProxy(U, ARGFORM[0]) if ARGFORM[0] else U
 
 
 # ----------------------------------------------------------------------------- elementwise
